@@ -52,10 +52,14 @@ def _call_closest(g_int, v_int, shift, off):
             "raw": np.asarray(out).tolist() if o is None else None}
 
 
-def _call_digitize(grids_int, data_int, shift, again=False, dtype=None):
+def _call_digitize(grids_int, data_int, shift, again=False, dtype=None, reuse=None):
     from black_it.utils.base import digitize_data
 
     grids = [_f(g, shift) for g in grids_int]
+    if reuse is not None and len(reuse) == len(grids) and all(len(a) == len(b) for a, b in zip(reuse, grids)):
+        for old, new in zip(reuse, grids):
+            old[:] = new                # the caller's grid arrays, overwritten in place since the previous call
+        grids = reuse
     data = _f(data_int, shift).reshape(len(data_int), len(grids_int))
     if dtype is not None and np.array_equal(data.astype(dtype).astype(np.float64), data):
         data = data.astype(dtype)           # the same numbers in another dtype (integers, single precision): the grid stays float64
@@ -67,12 +71,16 @@ def _call_digitize(grids_int, data_int, shift, again=False, dtype=None):
     o = _ints(np.asarray(out, dtype=np.float64), shift) if out.shape == data.shape else None
     ev = {"op": "digitize", "grids": [list(g) for g in grids_int], "data": [list(r) for r in data_int],
           "out": o if o is not None else []}
+    _LAST_GRIDS[0] = grids
     if again:
         ev["again"] = True
     if not np.array_equal(keep, data):
         ev["out"] = []  # input modified: reported as a shape/nearest failure
         ev["exc"] = "digitize_data modified its input"
     return ev
+
+
+_LAST_GRIDS: list = [None]
 
 
 def _ranked(grid: np.ndarray, v: float):
@@ -185,6 +193,17 @@ def build_traces(tier: str, rng: random.Random):
             grids = [sorted({big + 2 * rng.randint(0, 60) + 1 for _ in range(rng.choice([2, 3, 7]))}) for _ in range(cols)]
             data = [[big + 4 * rng.randint(-5, 35) for _ in range(cols)] for _ in range(rows)]
         traces.append([_call_digitize(grids, data, shift, dtype=dtype)])
+    # (c3) two calls with the SAME grid array objects, their contents replaced in place in between: each call snaps to the grid as it is
+    for _ in range(20 if tier == "quick" else 200):
+        cols, n = rng.randint(1, 3), rng.choice([2, 3, 6])
+        g1 = [sorted(rng.sample(range(-100, 100, 2), n)) for _ in range(cols)]
+        g2 = [sorted(rng.sample(range(-400, 400, 2), n)) for _ in range(cols)]
+        d1 = [[rng.randint(-120, 120) for _ in range(cols)] for _ in range(3)]
+        d2 = [[rng.randint(-420, 420) for _ in range(cols)] for _ in range(3)]
+        e1 = _call_digitize(g1, d1, 0)
+        e2 = _call_digitize(g2, d2, 0, reuse=_LAST_GRIDS[0])
+        traces.append([e1])
+        traces.append([e2])
     # (d) decimal grids as SearchSpace builds them (np.arange), values incl. float mid-points: exact ranks
     n_dec = 150 if tier == "quick" else 2000
     for _ in range(n_dec):
